@@ -1670,6 +1670,13 @@ class CPHDWriter1(BaseWriter):
         if data.shape[0] != entry.NumVectors:
             raise ValueError('Provided data must have size determined by NumVectors')
 
+        details = self.writing_details.pvp_details[int_index]
+        if self._in_memory and details.item_bytes is not None:
+            # NB: refuse before anything (in particular the amplitude scaling used
+            #   for formatted signal writes) has been modified
+            raise ValueError(
+                'The PVP array for channel `{}` has already been written'.format(identifier))
+
         if self.meta.PVP.AmpSF is not None and getattr(self.meta.Data, 'SignalCompressionID', None) is None:
             amp_sf = numpy.copy(data['AmpSF'][:])
             # noinspection PyUnresolvedReferences
@@ -1679,7 +1686,6 @@ class CPHDWriter1(BaseWriter):
         # write the data
         self._pvp_memmaps[identifier][list(data.dtype.names)] = data[list(data.dtype.names)]
         # mark it as written
-        details = self.writing_details.pvp_details[int_index]
         if self._in_memory:
             # TODO: we can likely delete the memmap now?
             details.item_bytes = self._pvp_memmaps[identifier].tobytes()
